@@ -1520,8 +1520,9 @@ def bm_model_request(bw, info, terminal, items, ts, author, commit):
     url = info["url"] if info["hyperlinks"] else None
     # without --hyperlinks no arm consults the link function; with it and no template there is no remote either (--no-gitconfig)
     cw = bw.table([ts, author, commit, info["format"], url or ""])
-    return "blamemeta.format %d %d %s %s %s %s %s" % (1 if info["hyperlinks"] else 0, 1 if terminal else 0, cw,
-                                                       bm_field(ts, url), bm_field(author, url), bm_field(commit, url), items)
+    return "blamemeta.format %d %d %s %s %s %s %s %s" % (1 if info["hyperlinks"] else 0, 1 if terminal else 0, cw,
+                                                          hx(url) if url is not None else "-",
+                                                          bm_field(ts, url), bm_field(author, url), bm_field(commit, url), items)
 
 
 def bm_hook_facts(ctx, args, lines):
